@@ -379,7 +379,7 @@ def keygen_history(rng: Rng, res, viol, tier):
             mats = []      # 8 / 16 bit keys must repeat in a history this long
     elif which == "RSA":
         # every multiple of 8 is a legal request: the modulus has the requested size, not a "normalised" one
-        bits = rng.pick([1024, 2048, 1032, 1096, 1536, 2056, 2104, 8 * rng.randrange(64, 260)])
+        bits = rng.pick([1024, 2048, 1032, 1096, 1536, 2056, 2104, 8 * rng.randrange(128, 260)])
         for i in range(3 if tier == "quick" else 6):
             tmpl = rng.pick([None, {"alg": rng.pick(["RS256", "PS512", "RSA-OAEP", "RSA-OAEP-512", "RSA1_5"])}, {"use": "enc"}])
             k = RSAKey.generate_key(bits, tmpl) if i % 2 == 0 else JWKRegistry.generate_key("RSA", bits, tmpl)
